@@ -1413,9 +1413,7 @@ Theorem write_reflects ct d c : write ct d = Ok c ->
     Forall2 reflects sers (kept ct sds) /\
     uniq sers.
 Proof.
-  unfold write. destruct (write_core ct d) as [c0|e] eqn:Hw; [|discriminate]. cbn [bind].
-  destruct (date_axis_breaks ct d); [discriminate|]. intros H; injection H as <-.
-  unfold write_core in Hw. unfold kept, is_pie.
+  intros Hw. rename c into c0. unfold write in Hw. unfold kept, is_pie.
   destruct (writer_of ct) as [[[[wk ptag] pre] post]|] eqn:W; [|discriminate].
   pose proof (writer_of_tag _ _ _ _ _ W) as Htag.
   assert (Hnil : forall rk, is_xy_plot ptag = rk_xy rk -> ser_datas rk false d = Ok [] ->
@@ -2348,12 +2346,38 @@ Proof.
     split; [reflexivity|]. split; [vm_compute; reflexivity|]. split; reflexivity.
 Qed.
 
-(** Date categories with a number format containing a double quote cannot be written by
-    the area, bar and line writers. *)
-Lemma date_quote_refuted : exists ct d, data_len d = 1%nat /\ write ct d = Err OtherErr.
+(** Regression (fixed in python-pptx db8d5348): date categories with a number format
+    containing a double quote used to make the area, bar and line writers fail; the chart is
+    written and the format code is kept. *)
+Definition w_quote_fmt : str := [34; 36; 34; 48]%N.
+Definition w_date_quote : chart_data :=
+  DCat [CatNode (LDate 2020 1 1) []] (Some w_quote_fmt) [mkCS [115%N] w_quote_fmt [Some [49%N]]].
+Lemma date_quote_regression : exists c p s cx vc, write 57 w_date_quote = Ok c /\ ch_plots c = [p] /\
+  p_sers p = [s] /\ first_some kid_cat (s_kids s) = Some cx /\ first_some kid_val (s_kids s) = Some vc /\
+  cx_fmt cx = Some w_quote_fmt /\ ca_fmt vc = Some w_quote_fmt /\
+  plot_cat_labels p = [[52; 51; 56; 51; 49; 46; 48]%N].
+Proof. do 5 eexists. split; [vm_compute; reflexivity|]. repeat split. Qed.
+
+(** The number formats are kept as given (line ends normalised), whatever they contain. *)
+Lemma number_format_kept :
+  (forall fmt vals, ca_fmt (num_cache fmt vals) = Some (xml_norm fmt)) /\
+  (forall b f fmt cx, write_cat b f (Some fmt) = Ok cx -> cx_kind cx = 1%N -> cx_fmt cx = Some (xml_norm fmt)).
 Proof.
-  exists 57, (DCat [CatNode (LDate 2020 1 1) []] (Some [34; 36; 34; 48]%N) [w_ser [115%N] [Some [49%N]]]).
-  split; reflexivity.
+  split; [reflexivity|]. intros b f fmt cx. unfold write_cat.
+  destruct (forest_depth f) as [D|]; [|discriminate].
+  repeat match goal with |- context [if ?b then _ else _] => destruct b end;
+    intros H; injection H as <-; cbn [cx_kind cx_fmt]; try discriminate. reflexivity.
+Qed.
+
+(** A category writer succeeds on every category data of uniform depth with a series,
+    whatever the strings and number formats are. *)
+Lemma write_cat_total ct ptag pre post f fmt sers D :
+  writer_of ct = Some (WCatPlain, ptag, pre, post) -> forest_depth f = Some D -> sers <> [] ->
+  exists c, write ct (DCat f fmt sers) = Ok c.
+Proof.
+  intros W HD Hs. unfold write. rewrite W. destruct sers as [|s0 sers']; [congruence|].
+  unfold write_cat. rewrite HD.
+  repeat match goal with |- context [if ?b then _ else _] => destruct b end; cbn [bind]; eauto.
 Qed.
 
 (** flattened_labels on levels python-pptx did not write: a leaf that lies before the
